@@ -109,7 +109,7 @@ PROPERTIES = {
         'not_decided': 'reassembled bytes for every acknowledge pattern (go-back-N arithmetic)',
     },
     'C04': {
-        'rules': ['SDO', 'RF14'],
+        'rules': ['SDO', 'RF14', 'SDO2'],
         'exhaustive': True,
         'technique': 'decision-table extraction by constant folding of the dispatcher guards over all 256 command '
                      'bytes x 5 block states, verdict tables, return-path discipline, must-pass-through',
